@@ -111,7 +111,7 @@ NOTES = {
  "C15-16": "round 6; NOT reported: Retry() delegates to Catch recursively (attempts nest instead of following each other) - the body is one call to Catch, nothing structural to see in Retry itself",
  "C16-14": "round 6; NOT reported: SampleWhen flushes the pending value when the ticker completes (the same change as C05-16)",
  "C16-15": "round 6", "C16-16": "round 6",
- "C18-14": "round 6; NOT reported at first (one shared bufio.Reader without the per-line copy in NewPrompt); the repair of NewPrompt (2db6559) made the same move correctly, the seed was re-based onto it",
+
  "C18-15": "round 6", "C18-16": "round 6; NOT reported: NewIOWriter forwards a source error without first emitting the byte count - what a sink reports on failure, definition level",
  "C19-14": "round 6", "C19-15": "round 6",
  "C20-14": "round 6; NOT reported: core Interval turns a cancelled context into an Error (ported from Timer/Never): one key's cancelled item context fails the whole native limiter - which terminal a cancellation yields, definition level",
